@@ -51,6 +51,10 @@ CHECKS = {
          "exhaustive enumeration of all strings up to a length bound over the descriptor and name alphabets through the real parsers/predicates against an independent JVMS recogniser",
          "All 3.2M strings of length ≤6 (thorough ≤7) over BDLa/;[()V.$ through field/method/return parse: accepted exactly when in the JVMS language, structure equal to the reference structure, write∘parse and parse∘write identities (dimensions 1,2,254,255,256,257 explicit); all strings ≤6 over a.;[/<>$ plus <init>/<clinit> neighbours through the seven name predicates and TryFroms; split/join inverse laws on all short names.",
          "DESIGN.md §2 C18", TRUST),
+ "C20": ("exploration",
+         "bounded exhaustive enumeration of class files and of raw class values through the real raw_class_file read/write/length, compared byte-for-byte with the input and with an independent JVMS reference encoder",
+         "Files: every class of the shared suite, the shape sweep (all instruction sequences of length ≤3, thorough ≤4), stripped variants, the 357-class javac corpus (thorough: java.base) is read by the real ClassFile::read and written back: output must equal the input byte for byte and length() the byte count. Values: for each of the 29 AttributeInfo variants, 17 CpInfo variants, 7 frame kinds × 10 verification types, 13 element-value tags (nesting ≤2) and the module tables, every instance with 0/1/2 elements per vector inside a minimal class, in three pool layouts: read(write(v)) == v, length() exact, bytes equal to an independent reference encoder's JVMS bytes (accepted by the strict parser; re-read by duke). Differences are located with the strict parser's field map and keyed by kind and site.",
+         "DESIGN.md §2 C20", TRUST + "; cfmodel strict parser; the reference encoder in c20/refenc.rs"),
  "C19": ("exploration",
          "deviation-bounded exhaustive enumeration of POM universes served through an in-memory Downloader to the real resolver, compared with a reference resolver written from Maven's documented rules",
          "Every dependency graph over artifacts a<b<c<d × versions {1,2} with ≤2 ordered dependencies per POM, and every 1- and 2-deviation (thorough 3) variant over scopes, optional, managed versions/scopes in own/parent/imported BOM, classifier/type, parents providing group/version/dependencies, second repository, root order and scopes, XML renderings: the real get_maven_dependencies must return the reference's breadth-first duplicate-free list (nearest wins, declaration-order ties, loser subtrees discarded); Display/parse round trips of all generated coordinates.",
